@@ -178,6 +178,13 @@ func (w *world) objS(it item) string {
 				id = i + 1
 			}
 		}
+		if b := it.img.Bounds(); id == 99 && !b.Empty() {
+			// a sub-image (FitImage with ImageCover): every pixel of image k carries k+1 in its red/grey channel
+			rr, _, _, _ := it.img.At(b.Min.X, b.Min.Y).RGBA()
+			if k := int(rr >> 8); 1 <= k && k <= len(w.imgs) {
+				id = k
+			}
+		}
 		sz := it.img.Bounds().Size()
 		return fmt.Sprintf("(OImage %s %s %s)", cq.Z(int64(id)), cq.Z(int64(sz.X)), cq.Z(int64(sz.Y)))
 	}
@@ -584,7 +591,7 @@ func (h *hist) pathCmd() {
 
 func (h *hist) genDraw() {
 	w := h.w
-	switch h.r.Intn(12) {
+	switch h.r.Intn(13) {
 	case 0, 1, 2, 3: // DrawPath with 1..3 paths
 		n := 1
 		if h.r.P(1, 3) {
@@ -642,6 +649,25 @@ func (h *hist) genDraw() {
 		h.ctxOp(fmt.Sprintf("DrawImage %s %s %s %s %s %s", qf(x), qf(y), cq.Z(int64(k+1)), cq.Z(int64(sz.X)), cq.Z(int64(sz.Y)), qf(res)),
 			fmt.Sprintf("DrawImage(%g,%g,img%d %dx%d,DPMM(%g))", x, y, k+1, sz.X, sz.Y, res),
 			func(c *canvas.Context) { c.DrawImage(x, y, im, canvas.DPMM(res)) })
+	case 11: // FitImage
+		k := h.r.Intn(len(w.imgs))
+		im := w.imgs[k]
+		sz := im.Bounds().Size()
+		x0, y0 := h.dy(-10, 40, 2), h.dy(-10, 40, 2)
+		rw, rh := h.dy(1, 40, 2), h.dy(1, 40, 2)
+		if h.r.P(1, 12) {
+			rw = 0
+		}
+		fit := h.r.Intn(3)
+		if _, ok := im.(interface {
+			SubImage(image.Rectangle) image.Image
+		}); !ok && fit == 2 {
+			fit = 1
+		}
+		rc := canvas.Rect{X0: x0, Y0: y0, X1: x0 + rw, Y1: y0 + rh}
+		h.ctxOp(fmt.Sprintf("FitImage %s %s%%Z %s %s %s", rectS(rc), cq.Z(int64(fit)), cq.Z(int64(k+1)), cq.Z(int64(sz.X)), cq.Z(int64(sz.Y))),
+			fmt.Sprintf("FitImage(img%d %dx%d, %v, %s)", k+1, sz.X, sz.Y, rc, []string{"ImageFill", "ImageContain", "ImageCover"}[fit]),
+			func(c *canvas.Context) { c.FitImage(im, rc, canvas.ImageFit(fit)) })
 	default:
 		h.pathCmd()
 	}
@@ -734,7 +760,20 @@ func newWorld(repo string) *world {
 	} else {
 		fmt.Fprintln(os.Stderr, "c15: no font, texts disabled:", err)
 	}
-	w.imgs = []image.Image{image.NewRGBA(image.Rect(0, 0, 8, 6)), image.NewRGBA(image.Rect(2, 3, 18, 7)), image.NewRGBA(image.Rect(0, 0, 0, 0)), image.NewGray(image.Rect(0, 0, 1, 1))}
+	w.imgs = []image.Image{image.NewRGBA(image.Rect(0, 0, 8, 6)), image.NewRGBA(image.Rect(2, 3, 18, 7)), image.NewRGBA(image.Rect(0, 0, 0, 0)), image.NewGray(image.Rect(0, 0, 1, 1)),
+		image.NewRGBA(image.Rect(0, 0, 40, 10)), image.NewRGBA(image.Rect(1, 1, 10, 38))}
+	for k, im := range w.imgs {
+		switch v := im.(type) {
+		case *image.RGBA:
+			for i := 0; i+3 < len(v.Pix); i += 4 {
+				v.Pix[i], v.Pix[i+3] = uint8(k+1), 255
+			}
+		case *image.Gray:
+			for i := range v.Pix {
+				v.Pix[i] = uint8(k + 1)
+			}
+		}
+	}
 	mk := func(s string) *canvas.Path { return canvas.MustParseSVGPath(s) }
 	w.paths = []*canvas.Path{
 		canvas.Rectangle(10, 6), canvas.Rectangle(1, 1), mk("M0 0L20 0"), mk("M0 0L0 5"), mk("M0 0L3 4"), mk("M1 1L4 1L4 5z"),
